@@ -180,6 +180,10 @@ func runPPRecv(c ppCase, idx int) (map[string]any, error) {
 		sockRemote = ppSockRemoteOut
 	case "inSpecific":
 		sockRemote = &net.TCPAddr{IP: net.IPv4(10, 88, 1, 5).To4(), Port: 51002}
+	case "in6":
+		sockRemote = &net.TCPAddr{IP: net.ParseIP("2001:db8:77::5"), Port: 51003}
+	case "out6":
+		sockRemote = &net.TCPAddr{IP: net.ParseIP("2001:db9::5"), Port: 51004}
 	}
 	// segmentation of the stream into socket reads
 	var pulls []int
@@ -218,6 +222,8 @@ func runPPRecv(c ppCase, idx int) (map[string]any, error) {
 		h["allow"] = []string{"10.77.0.0/16"}
 	case "inSpecific", "inBroad", "out2":
 		h["allow"] = []string{"10.77.0.0/16", "10.88.1.0/24"}
+	case "in6", "out6":
+		h["allow"] = []string{"10.77.0.0/16", "2001:db8:77::/48"}
 	}
 	ripRange := "203.0.113.99/32"
 	if src != nil {
